@@ -614,3 +614,53 @@ case("c05-signal-resume-without-continuation", "C05", "mutant", [(H + "signal_st
                             )
                         )""", """                    else:
                         pass""")], "C05.R5")
+
+# ------------------------------------------------------------------ C19
+PC = "src/stabilize/persistence/sqlite/"
+case("c19-field-not-restored", "C19", "mutant", [(PC + "converters.py", """        mutex_key=_safe_get("mutex_key"),
+""", "")], "C19.R1")
+case("c19-new-field-not-persisted", "C19", "mutant", [("src/stabilize/models/stage/stage.py", """    cancel_region: str | None = None
+""", """    cancel_region: str | None = None
+    retry_budget: int = 0
+""")], "C19.R1")
+case("c19-restored-from-wrong-column", "C19", "mutant", [(PC + "converters.py", """        start_time_expiry=row["start_time_expiry"],
+        scheduled_time=row["scheduled_time"],
+        version=row["version"],""", """        start_time_expiry=row["start_time_expiry"],
+        scheduled_time=row["start_time_expiry"],
+        version=row["version"],""")], "C19.R1")
+case("c19-enum-codec-mismatch", "C19", "mutant", [(PC + "helpers.py", """            "join_type": stage.join_type.value,""", """            "join_type": stage.join_type.name,""")], "C19.R2")
+case("c19-update-writes-extra-column", "C19", "mutant", [(PC + "store/stage_ops.py", """                        end_time = :end_time,
+                        version = version + 1
+                    WHERE id = :id AND version = :version
+                    \"\"\",""", """                        end_time = :end_time,
+                        name = 'x',
+                        version = version + 1
+                    WHERE id = :id AND version = :version
+                    \"\"\",""")], "C19.R3")
+case("c19-update-context-from-outputs", "C19", "mutant", [(PC + "transaction.py", """                        "context": json.dumps(stage.context, default=str),
+                        "outputs": json.dumps(stage.outputs, default=str),
+                        "start_time": stage.start_time,
+                        "end_time": stage.end_time,
+                        "version": stage.version,
+                    },
+                )
+            if cursor.rowcount""", """                        "context": json.dumps(stage.outputs, default=str),
+                        "outputs": json.dumps(stage.outputs, default=str),
+                        "start_time": stage.start_time,
+                        "end_time": stage.end_time,
+                        "version": stage.version,
+                    },
+                )
+            if cursor.rowcount""")], "C19.R3")
+case("c19-task-order-dropped", "C19", "mutant", [(PC + "store/stage_ops.py", """            WHERE stage_id = :stage_id
+            ORDER BY id ASC""", """            WHERE stage_id = :stage_id""")], "C19.R4")
+case("c19-serialisers-diverge", "C19", "mutant", [(PC + "transaction.py", """            elif isinstance(value, Enum):
+                data[key] = value.name""", """            elif isinstance(value, Enum):
+                data[key] = value.value""")], "C19.R5")
+case("c19-message-not-registered", "C19", "mutant", [("src/stabilize/queue/messages.py", """    "PauseTask": PauseTask,
+""", "")], "C19.R5")
+case("c19-payload-field-discarded", "C19", "mutant", [("src/stabilize/queue/sqlite/serialization.py", """    data.pop("max_attempts", None)
+""", """    data.pop("max_attempts", None)
+    data.pop("original_status", None)
+""")], "C19.R5")
+case("c19-refactor-rename-local", "C19", "refactor", [(PC + "converters.py", """    requisite_ids = json.loads(row["requisite_stage_ref_ids"] or "[]")""", """    req_ = json.loads(row["requisite_stage_ref_ids"] or "[]")"""), (PC + "converters.py", "        requisite_stage_ref_ids=set(requisite_ids),", "        requisite_stage_ref_ids=set(req_),")])
